@@ -278,7 +278,7 @@ def coq_property_audit(area, prop_file, timeout=600):
         if "Closed under the global context" in block:
             theorems.append({"name": name, "closed": True, "axioms": [], "bad": []})
             continue
-        axioms = re.findall(r"^([A-Za-z_][A-Za-z0-9_'.]*)\s*:", block, re.M)
+        axioms = [a for a in re.findall(r"^([A-Za-z_][A-Za-z0-9_'.]*)\s*:", block, re.M) if a != "Axioms"]
         bad = [a for a in axioms if a not in ALLOWED_AXIOMS and not a.startswith(PRIMITIVE_PREFIXES)]
         theorems.append({"name": name, "closed": False, "axioms": axioms, "bad": bad})
         if bad:
